@@ -181,13 +181,18 @@ def subLayerBodies : List (Nat × Nat) → P (List SubLayer)
     let others ← subLayerBodies rest
     pure ({ profilePresent := pp, levelPresent := lp, profile := prof, levelIdc := lvl } :: others)
 
-/-- H265RawProfileTierLevel.decode(r, true, maxNumSubLayersMinus1) -/
-def ptl (maxSub : Nat) : P Ptl := do
+/-- the `if profile_present_flag { … }` block and general_level_idc: (general profile, GeneralConstraintIndicatorFlags, level) -/
+def ptlGeneral : P (Profile × Nat × Nat) := do
   let h ← profileHead
   let cons ← peek 48
   let h ← sourceFlags h
   let g ← profileTail h [5, 9, 10]
   let lvl ← readU 8 8
+  pure (g, cons, lvl)
+
+/-- H265RawProfileTierLevel.decode(r, true, maxNumSubLayersMinus1) -/
+def ptl (maxSub : Nat) : P Ptl := do
+  let (g, cons, lvl) ← ptlGeneral
   let flags ← subLayerFlags maxSub
   (if maxSub > 0 then skipPairs (8 - maxSub) else pure ())
   let subs ← subLayerBodies flags
@@ -526,49 +531,73 @@ structure Vui where
   log2MaxMvLengthVertical : Nat := 0
 deriving DecidableEq, Repr
 
-/-- aspect ratio … chroma location: (flag, idc, sarW, sarH) etc., the same layout as H.264 except that the
-    colour description has an explicit `else` (2, 2, 2) -/
-def vuiHead : P Vui := do
+/-- (aspect_ratio_info_present_flag, aspect_ratio_idc, sar_width, sar_height) -/
+def vuiAspect : P (Nat × Nat × Nat × Nat) := do
   let ar ← readBit
-  let (idc, sw, sh) ← (if ar = 1 then do
-      let idc ← readU 8 8
-      if idc = 255 then do
-        let w ← readU 16 16
-        let h ← readU 16 16
-        pure (idc, w, h)
-      else pure (idc, 0, 0)
-    else pure (0, 0, 0))
+  if ar = 1 then do
+    let idc ← readU 8 8
+    if idc = 255 then do
+      let w ← readU 16 16
+      let h ← readU 16 16
+      pure (ar, idc, w, h)
+    else pure (ar, idc, 0, 0)
+  else pure (ar, 0, 0, 0)
+
+/-- (overscan_info_present_flag, overscan_appropriate_flag) -/
+def vuiOverscan : P (Nat × Nat) := do
   let os ← readBit
-  let osa ← (if os = 1 then readBit else pure 0)
+  if os = 1 then do
+    let a ← readBit
+    pure (os, a)
+  else pure (os, 0)
+
+/-- (video_signal_type_present_flag, video_format, video_full_range_flag, colour_description_present_flag,
+    colour_primaries, transfer_characteristics, matrix_coeffs); unlike H.264 the colour description has an explicit
+    `else` (2, 2, 2) -/
+def vuiSignal : P (Nat × Nat × Nat × Nat × Nat × Nat × Nat) := do
   let vs ← readBit
-  let (fmt, fr, cd, cp, tc, mc) ← (if vs = 1 then do
-      let fmt ← readU 3 8
-      let fr ← readBit
-      let cd ← readBit
-      if cd = 1 then do
-        let a ← readU 8 8
-        let b ← readU 8 8
-        let c ← readU 8 8
-        pure (fmt, fr, cd, a, b, c)
-      else pure (fmt, fr, cd, 2, 2, 2)
-    else pure (5, 0, 0, 2, 2, 2))
+  if vs = 1 then do
+    let fmt ← readU 3 8
+    let fr ← readBit
+    let cd ← readBit
+    if cd = 1 then do
+      let a ← readU 8 8
+      let b ← readU 8 8
+      let c ← readU 8 8
+      pure (vs, fmt, fr, cd, a, b, c)
+    else pure (vs, fmt, fr, cd, 2, 2, 2)
+  else pure (vs, 5, 0, 0, 2, 2, 2)
+
+/-- (chroma_loc_info_present_flag, top, bottom) -/
+def vuiChromaLoc : P (Nat × Nat × Nat) := do
   let cl ← readBit
-  let (clt, clb) ← (if cl = 1 then do
-      let a ← readUe8
-      let b ← readUe8
-      pure (a, b)
-    else pure (0, 0))
+  if cl = 1 then do
+    let a ← readUe8
+    let b ← readUe8
+    pure (cl, a, b)
+  else pure (cl, 0, 0)
+
+/-- (default_display_window_flag, left, right, top, bottom) -/
+def vuiWindow : P (Nat × Nat × Nat × Nat × Nat) := do
+  let ddw ← readBit
+  if ddw = 1 then do
+    let a ← readUe16
+    let b ← readUe16
+    let c ← readUe16
+    let d ← readUe16
+    pure (ddw, a, b, c, d)
+  else pure (ddw, 0, 0, 0, 0)
+
+/-- aspect ratio … default display window -/
+def vuiHead : P Vui := do
+  let (ar, idc, sw, sh) ← vuiAspect
+  let (os, osa) ← vuiOverscan
+  let (vs, fmt, fr, cd, cp, tc, mc) ← vuiSignal
+  let (cl, clt, clb) ← vuiChromaLoc
   let neutral ← readBit
   let fieldSeq ← readBit
   let ffi ← readBit
-  let ddw ← readBit
-  let (dl, dr, dt, db) ← (if ddw = 1 then do
-      let a ← readUe16
-      let b ← readUe16
-      let c ← readUe16
-      let d ← readUe16
-      pure (a, b, c, d)
-    else pure (0, 0, 0, 0))
+  let (ddw, dl, dr, dt, db) ← vuiWindow
   pure { aspectRatioInfoPresentFlag := ar, aspectRatioIdc := idc, sarWidth := sw, sarHeight := sh,
          overscanInfoPresentFlag := os, overscanAppropriateFlag := osa, videoSignalTypePresentFlag := vs,
          videoFormat := fmt, videoFullRangeFlag := fr, colourDescriptionPresentFlag := cd, colourPrimaries := cp,
@@ -735,16 +764,15 @@ def longTermLoop (cfg : Cfg) (bits : Nat) : Nat → Nat → P (List (Nat × Nat)
     let rest ← longTermLoop cfg bits n (i + 1)
     pure ((v, u) :: rest)
 
-/-- bit depths … sps_extension flags -/
-def spsBody (cfg : Cfg) (h : SpsHead) : P SpsBody := do
-  let msl := h.spsMaxSubLayersMinus1
-  let bdl ← readUe8
-  let bdc ← readUe8
-  let lsb ← readUe8
+/-- sps_sub_layer_ordering_info_present_flag and the three arrays: (flag, entries 0 … max) -/
+def bodyOrdering (cfg : Cfg) (msl : Nat) : P (Nat × List Ordering) := do
   let oflag ← readBit
   let start := if cfg.spsOrderingStd then (if oflag = 1 then 0 else msl) else (if oflag = 1 then msl else 0)
   let read ← orderingLoop cfg (msl + 1 - start) start
-  let ordering := orderingArrays oflag msl start read
+  pure (oflag, orderingArrays oflag msl start read)
+
+/-- log2_min_luma_coding_block_size_minus3 … max_transform_hierarchy_depth_intra, with the MinCbSizeY check -/
+def bodyCoding (h : SpsHead) : P (Nat × Nat × Nat × Nat × Nat × Nat) := do
   let minCb ← readUe8
   let diffCb ← readUe8
   let shift := (minCb + 3) % 256
@@ -755,46 +783,79 @@ def spsBody (cfg : Cfg) (h : SpsHead) : P SpsBody := do
   let diffTb ← readUe8
   let thInter ← readUe8
   let thIntra ← readUe8
+  pure (minCb, diffCb, minTb, diffTb, thInter, thIntra)
+
+/-- (scaling_list_enabled_flag, sps_scaling_list_data_present_flag, scaling list data) -/
+def bodyScaling (cfg : Cfg) : P (Nat × Nat × List (List ScalingEntry)) := do
   let sle ← readBit
-  let (sldp, sl) ← (if sle = 1 then do
-      let p ← readBit
-      if p = 1 then do
-        let l ← scalingList cfg.seFromUe
-        pure (p, l)
-      else pure (p, [])
-    else pure (0, []))
+  if sle = 1 then do
+    let p ← readBit
+    if p = 1 then do
+      let l ← scalingList cfg.seFromUe
+      pure (sle, p, l)
+    else pure (sle, p, [])
+  else pure (sle, 0, [])
+
+/-- (pcm_enabled_flag and its five elements) -/
+def bodyPcm : P (Nat × Nat × Nat × Nat × Nat × Nat) := do
+  let pcm ← readBit
+  if pcm = 1 then do
+    let a ← readU 4 8
+    let b ← readU 4 8
+    let c ← readUe8
+    let d ← readUe8
+    let e ← readBit
+    pure (pcm, a, b, c, d, e)
+  else pure (pcm, 0, 0, 0, 0, 0)
+
+/-- (long_term_ref_pics_present_flag, num_long_term_ref_pics_sps, entries) -/
+def bodyLongTerm (cfg : Cfg) (lsb : Nat) : P (Nat × Nat × List (Nat × Nat)) := do
+  let ltp ← readBit
+  if ltp = 1 then do
+    let n ← readUe8
+    let l ← longTermLoop cfg ((lsb + 4) % 256) n 0
+    pure (ltp, n, l)
+  else pure (ltp, 0, [])
+
+/-- (sps_extension_present_flag and the five extension elements) -/
+def bodyExt : P (Nat × Nat × Nat × Nat × Nat × Nat) := do
+  let ext ← readBit
+  if ext = 1 then do
+    let a ← readBit
+    let b ← readBit
+    let c ← readBit
+    let d ← readBit
+    let e ← readU 4 8
+    pure (ext, a, b, c, d, e)
+  else pure (ext, 0, 0, 0, 0, 0)
+
+/-- (vui_parameters_present_flag, VUI) -/
+def bodyVui (cfg : Cfg) (msl : Nat) : P (Nat × Vui) := do
+  let vf ← readBit
+  if vf = 1 then do
+    let v ← vui cfg msl
+    pure (vf, v)
+  else pure (vf, vuiDefault)
+
+/-- bit depths … sps_extension flags -/
+def spsBody (cfg : Cfg) (h : SpsHead) : P SpsBody := do
+  let msl := h.spsMaxSubLayersMinus1
+  let bdl ← readUe8
+  let bdc ← readUe8
+  let lsb ← readUe8
+  let (oflag, ordering) ← bodyOrdering cfg msl
+  let (minCb, diffCb, minTb, diffTb, thInter, thIntra) ← bodyCoding h
+  let (sle, sldp, sl) ← bodyScaling cfg
   let amp ← readBit
   let sao ← readBit
-  let pcm ← readBit
-  let (p1, p2, p3, p4, p5) ← (if pcm = 1 then do
-      let a ← readU 4 8
-      let b ← readU 4 8
-      let c ← readUe8
-      let d ← readUe8
-      let e ← readBit
-      pure (a, b, c, d, e)
-    else pure (0, 0, 0, 0, 0))
+  let (pcm, p1, p2, p3, p4, p5) ← bodyPcm
   let nrps ← readUe8
   let rps ← stRpsLoop cfg nrps 0 []
-  let ltp ← readBit
-  let (nlt, lts) ← (if ltp = 1 then do
-      let n ← readUe8
-      let l ← longTermLoop cfg ((lsb + 4) % 256) n 0
-      pure (n, l)
-    else pure (0, []))
+  let (ltp, nlt, lts) ← bodyLongTerm cfg lsb
   let mvp ← readBit
   let sis ← readBit
-  let vf ← readBit
-  let v ← (if vf = 1 then vui cfg msl else pure vuiDefault)
-  let ext ← readBit
-  let (e1, e2, e3, e4, e5) ← (if ext = 1 then do
-      let a ← readBit
-      let b ← readBit
-      let c ← readBit
-      let d ← readBit
-      let e ← readU 4 8
-      pure (a, b, c, d, e)
-    else pure (0, 0, 0, 0, 0))
+  let (vf, v) ← bodyVui cfg msl
+  let (ext, e1, e2, e3, e4, e5) ← bodyExt
   pure { bitDepthLumaMinus8 := bdl, bitDepthChromaMinus8 := bdc, log2MaxPicOrderCntLsbMinus4 := lsb,
          spsSubLayerOrderingInfoPresentFlag := oflag, ordering := ordering,
          log2MinLumaCodingBlockSizeMinus3 := minCb, log2DiffMaxMinLumaCodingBlockSize := diffCb,
